@@ -83,6 +83,42 @@ func modulesPrograms(r *rand.Rand, n int) []*Program {
 	add("fresh-in-func", []Module{counter()},
 		Def("mk", Fn(nil, false, Ret(Import("cnt")))), Def("a", Call(Id("mk"))), Def("b", Call(Id("mk"))),
 		ExprS(Call(Sel(Id("a"), "inc"))), Def("r", Arr(Call(Sel(Id("a"), "get")), Call(Sel(Id("b"), "get")))))
+	// a module whose top-level function calls itself and keeps per-instance state: each import is a new instance even when the
+	// instances are created at the same stack depth, one after the other (what a previous activation left in the frame must not matter)
+	walker := func() Module {
+		return mod("wk", Def("n", Int(0)),
+			Def("walk", Fn([]string{"k"}, false, Set("n", nil, "+=", Int(1)), If(nil, Bin(">", Id("k"), Int(0)), Blk(ExprS(Call(Id("walk"), Bin("-", Id("k"), Int(1))))), nil), Ret(Id("n")))),
+			Export(Map([]string{"walk", "count"}, []*Node{Id("walk"), Fn(nil, false, Ret(Id("n")))})))
+	}
+	add("fresh-recursive-instances", []Module{walker()},
+		Def("a", Import("wk")), Def("b", Import("wk")), Def("r1", Call(Sel(Id("a"), "walk"), Int(3))), Def("r2", Call(Sel(Id("a"), "count"))), Def("r3", Call(Sel(Id("b"), "count"))),
+		Def("r4", Call(Sel(Id("b"), "walk"), Int(1))), Def("r5", Call(Sel(Id("a"), "count"))))
+	add("fresh-recursive-instances-in-func", []Module{walker()},
+		Def("mk", Fn(nil, false, Ret(Import("wk")))), Def("a", Call(Id("mk"))), Def("r1", Call(Sel(Id("a"), "walk"), Int(2))), Def("b", Call(Id("mk"))),
+		Def("r2", Arr(Call(Sel(Id("a"), "count")), Call(Sel(Id("b"), "count")), Call(Sel(Id("b"), "walk"), Int(0)), Call(Sel(Id("a"), "count")))))
+	add("fresh-recursive-instances-in-loop", []Module{walker()},
+		Def("out", Arr()), For(Def("i", Int(0)), Bin("<", Id("i"), Int(3)), IncDec("i", nil, "++"),
+			Blk(Def("c", Import("wk")), Set("out", nil, "=", Call(Id("append"), Id("out"), Call(Sel(Id("c"), "walk"), Id("i")), Call(Sel(Id("c"), "count")))))))
+	// values derived from an exported container by every operator and builtin that yields a container, then written: the export is
+	// untouched (what the importer holds after the write is compared with a second import - the body runs afresh - and with the first)
+	derive := []struct {
+		name string
+		mk   func(x *Node) *Node
+	}{
+		{"+[]", func(x *Node) *Node { return Bin("+", x, Arr()) }}, {"+imm[]", func(x *Node) *Node { return Bin("+", x, Imm(Arr())) }},
+		{"+import(none)", func(x *Node) *Node { return Bin("+", x, Import("none")) }}, {"+[9]", func(x *Node) *Node { return Bin("+", x, Arr(Int(9))) }},
+		{"[]+", func(x *Node) *Node { return Bin("+", Arr(), x) }}, {"imm[]+", func(x *Node) *Node { return Bin("+", Imm(Arr()), x) }},
+		{"[:]", func(x *Node) *Node { return Slice(x, nil, nil) }}, {"[0:]", func(x *Node) *Node { return Slice(x, Int(0), nil) }},
+		{"append()", func(x *Node) *Node { return Call(Id("append"), x, Int(9)) }}, {"append(spread [])", func(x *Node) *Node { return CallSpread(Id("append"), x, Arr()) }},
+		{"copy", func(x *Node) *Node { return Call(Id("copy"), x) }}, {"||", func(x *Node) *Node { return Bin("||", x, Arr()) }},
+		{"?:", func(x *Node) *Node { return Cond(Bool(true), x, Arr()) }}, {"splice-copy", func(x *Node) *Node { return Call(Id("splice"), Call(Id("copy"), x), Int(0), Int(0)) }},
+	}
+	for _, d := range derive {
+		add("export-derive-write "+d.name, []Module{mod("m", Export(Arr(Int(1), Arr(Int(2), Int(3)), Int(4)))), mod("none", Export(Arr()))},
+			Def("d", Import("m")), Def("s", d.mk(Id("d"))), Def("t", Call(Id("type_name"), Id("s"))),
+			If(nil, Call(Id("is_array"), Id("s")), Blk(Set("s", []*Node{Int(0)}, "=", Int(99))), nil),
+			Def("r", Arr(Idx(Id("d"), Int(0)), Idx(Import("m"), Int(0)), Idx(Idx(Id("d"), Int(1)), Int(0)))))
+	}
 	// diamond and chain
 	add("diamond", []Module{
 		mod("base", Export(Map([]string{"v"}, []*Node{Int(7)}))),
